@@ -1333,7 +1333,7 @@ func runLog(repo, out string) {
 	}
 	sort.Strings(names)
 	fmt.Fprintf(&b, "/-- the translated functions -/\ndef translated : List String := [%s]\n\n", `"`+strings.Join(names, `", "`)+`"`)
-	fmt.Fprintf(&b, "/-- other functions of the package (not called by the translated ones, or the translation would have failed) -/\ndef untranslated : List String := [%s]\n\n", quoteAll(append(extra, presentSkipped(decls)...)))
+	fmt.Fprintf(&b, "/-- other functions of the package (not called by the translated ones, or the translation would have failed) -/\ndef untranslated : List String := [%s]\n\n", logQuoteAll(append(extra, presentSkipped(decls)...)))
 	b.WriteString("end Generated.GoLog\n")
 	if err := os.WriteFile(out, []byte(b.String()), 0o644); err != nil {
 		fail("%v", err)
@@ -1392,7 +1392,7 @@ func presentSkipped(decls map[string]*ast.FuncDecl) []string {
 	return r
 }
 
-func quoteAll(xs []string) string {
+func logQuoteAll(xs []string) string {
 	sort.Strings(xs)
 	var q []string
 	for _, x := range xs {
